@@ -98,7 +98,7 @@ type c03File struct {
 }
 
 func nexusHeaderEnd(s string) int {
-	i := strings.Index(strings.ToLower(s), "matrix")
+	i := strings.Index(asciiLower(s), "matrix")
 	if i < 0 {
 		return 0
 	}
@@ -750,6 +750,17 @@ func c03Parse(ctx *Ctx, c *C03Case, f *simFile) (res parseResult) {
 	return
 }
 
+// asciiLower lowers A-Z only and keeps every byte where it is (strings.ToLower turns an invalid byte into three).
+func asciiLower(s string) string {
+	b := []byte(s)
+	for i, ch := range b {
+		if ch >= 'A' && ch <= 'Z' {
+			b[i] = ch + 32
+		}
+	}
+	return string(b)
+}
+
 type panicInfo struct {
 	val   interface{}
 	stack string
@@ -896,7 +907,7 @@ func (c03) Run(ctx *Ctx, ci interface{}) (o Outcome) {
 			if strings.Count(s, "[") > strings.Count(s, "]") {
 				o.Add("probe_eof_inside_nexus_comment", 1)
 			}
-			if i := strings.Index(strings.ToLower(s), "matrix"); i >= 0 && !strings.Contains(s[i:], ";") {
+			if i := strings.Index(asciiLower(s), "matrix"); i >= 0 && !strings.Contains(s[i:], ";") {
 				o.Add("probe_eof_inside_nexus_matrix", 1)
 			}
 		case "stockholm":
